@@ -143,7 +143,7 @@ func vPickTree(c *vGenCfg) expr.Expr {
 		}
 		w := c.width()
 		other := c.leaf()
-		switch sym.Choose(5) {
+		switch sym.Choose(7) {
 		case 0:
 			return expr.NewBinary(c.ops[sym.Choose(len(c.ops))], g, other, w)
 		case 1:
@@ -151,7 +151,11 @@ func vPickTree(c *vGenCfg) expr.Expr {
 		case 2:
 			return expr.NewLess(g, other, expr.NewRegLoad("r1", w), expr.NewRegLoad("r2", w), w)
 		case 3:
-			return expr.NewLess(other, expr.NewRegLoad("r1", w), g, expr.NewRegLoad("r2", w), w)
+			return expr.NewLess(other, g, expr.NewRegLoad("r1", w), expr.NewRegLoad("r2", w), w)
+		case 4: // gadget in the true arm, the other arm of any width
+			return expr.NewLess(other, expr.NewRegLoad("r1", w), g, expr.NewRegLoad("r2", c.width()), w)
+		case 5: // gadget in the false arm, the other arm of any width
+			return expr.NewLess(other, expr.NewRegLoad("r1", w), expr.NewRegLoad("r2", c.width()), g, w)
 		default:
 			return expr.NewMemLoad("m", g, w)
 		}
